@@ -17,6 +17,7 @@ from vlib import *
 import progcheck as pc
 sys.path.insert(0, os.path.join(VERIF, "tools", "gen"))
 import coregen
+import c03u
 
 MODULES = ["Mimium.Props.C03"]
 
@@ -290,13 +291,14 @@ def main(ctx, args):
         "memory errors are observed through the cfg(mimium_verif) hooks (bounds assertion at every VM state access) and through debug assertions/overflow checks of the harness build; the Rust `unsafe` blocks themselves are not verified",
         "streams: well-typed generated programs (profiles core, deep, closure_assign) and near-miss mutants obtained by type-changing mutations (tuple arity, projection index, argument count/type, unbound name, applying a non-function, mismatched if arms, tuple/lambda operands) — whatever the real type checker accepts must run safely on both backends; the verdict of the Lean checker (proved sound) is compared with the real verdict on every case",
         "the annotation inference in front of the Lean checker (Model/CoreInfer.lean) is not verified and need not be: C03_check_sound holds for every annotation table",
+        "unification stream: the real unify_types / unify_types_args are reached through the add-only cfg(mimium_verif) hook compiler::typing::verif_unify on types built with the public Type API (one cell per variable number, level 0, no locations); spans, levels and bounds of the cells are not compared; what typing.rs ASKS to be unified is not modelled",
         "shipped-sources stream: every .mmm under lib/, examples/, mimium-test/tests/mmm is compiled whole under its own path and run for 4 samples on both back ends; files that need the GUI / MIDI / audio-file plugins are only seen up to their `Variable … not found` diagnostic (the harness cannot load those plugins); whether the outputs of the two back ends are EQUAL is C01's statement, not checked here",
     ]
     known = load_known("C03")
     known_ids = {k["id"] for k in known}
     if not extract(ctx):
         ctx.finish()
-    proved = prove(ctx, MODULES, drivers=["drv_prog", "drv_c03", "drv_mir"])
+    proved = prove(ctx, MODULES, drivers=["drv_prog", "drv_c03", "drv_c03u", "drv_mir"])
     if proved and ctx.tier == "thorough":
         proved = leancheck(ctx, MODULES)
     if not build_harness(ctx, bins=["runprog"]):
@@ -314,6 +316,11 @@ def main(ctx, args):
         if sig is not None:
             ctx.violation(f"shipped source does not compile-and-run safely under its own path: {sig}", dict(r, vm=vm[:1500], wasm=wasm[:1500]))
         ctx.coverage.update({"evaluations": 1, "replay_class": cls})
+        ctx.finish("proof")
+    if args.replay and json.load(open(args.replay)).get("kind") == "unify":
+        r = json.load(open(args.replay))
+        cov = c03u.stream(ctx, replay_ops=r["ops"])
+        ctx.coverage.update({"evaluations": 1, "unification": cov})
         ctx.finish("proof")
     if args.replay:
         r = json.load(open(args.replay))
@@ -392,6 +399,9 @@ def main(ctx, args):
             if cls in ("panic", "runtime-error", "harness-died"):
                 failures.append((c, f"vm-{cls}: " + vm[:200], vm, "-"))
     shipped_cov = shipped_stream(ctx, known) if not args.replay else {}
+    # the real unify_types / unify_types_args against the port Model/Unify.lean (theorems C03_unify_sound, C04_unify_preserves_acyclic)
+    unify_cov = c03u.stream(ctx) if not args.replay else {}
+    stats["evaluations"] += unify_cov.get("cases", 0)
     stats["evaluations"] += shipped_cov.get("files", 0) + shipped_cov.get("corpus_cases", 0)
     # SSA well-formedness of the MIR of everything the compiler accepted (`wfFn`, Model/MirWf.lean; theorem C03_mir_wf_no_stuck)
     wf_stats, wf_bad = collections.Counter(), []
@@ -463,6 +473,7 @@ def main(ctx, args):
         "outcomes": {k: v for k, v in stats.items() if "_" in k and k != "evaluations"},
         "heap_and_closure_programs(VM, hooks on)": dict(heap_stats),
         "shipped_sources": shipped_cov,
+        "unification(port vs real unify_types)": unify_cov,
         "verdict_matrix": dict(sorted(matrix.items())),
         "verdict_matrix_legend": "L+/L- Lean checker accepts/rejects, R+/R- real checker accepts/rejects (no diagnostic), ! = accepted by the real checker but not run safely (crash, one back end only, wrong width)",
         "real_accepts_outside_core_model": dict(sorted(outside.items())),
